@@ -131,4 +131,5 @@ def run(ctx):
              '(accumulators, values copied into or out of the codec state) have the same type, and the stores into the codec-private state are the same (field, expression) pairs', floor=20)
     from engine.kernelsibs import kernel_sibs
     ctx.require(kernel_sibs(ctx, prog) >= 20, 'too few kernel families found')
+    borrow(ctx, 'C05', ['SIBLING-INDEX'], 'a typed write variant that addresses the block buffer differently (e.g. computes its offset once per call instead of once per chunk) makes the bytes depend on how the writes were split')
 
